@@ -22,6 +22,9 @@ def sticky(ctx, focus, mode, env, trace_name):
     fails, r = ctx.validate("Trace_Sticky", "Trace_Sticky_%s.cfg" % focus, trace)
     for f in fails:
         f["trace"] = trace
+    ctx.extra["model_deviation_warnings"] = ctx.extra.get("model_deviation_warnings", 0) + len(r["warns"])
+    for w in r["warns"][:3]:
+        print("NOTE: model deviation (mechanism beneath the listed property): line %s case %s %s [%s]" % (w["line"], w["case"], w["what"], w.get("detail", "")[:80]))
     if not ctx.samples:
         with open(trace) as fh:
             ctx.samples = [next(fh).strip()[:2500] for _ in range(3)]
@@ -37,6 +40,7 @@ def run(ctx, args):
     ctx.model_check("MC_Sticky", "MC_StickyReject.cfg", expect_violation="StickyStep")      # releasing the pin when an INVITE of the established dialog is rejected violates it
     ctx.model_check("MC_Sticky", "MC_StickyReach.cfg", expect_violation="Reach_PinnedAfterRotation")
     ctx.model_check("MC_Sticky", "MC_StickyReachLong.cfg", expect_violation="Reach_LongSurvives")
+    ctx.model_check("MC_Sticky", "MC_StickyReachTx.cfg", expect_violation="Reach_TxAttributed")   # a dialog pinned through the transaction binding is reachable
     beh = os.path.join(ctx.scratch, "sticky_behaviours.ndjson")
     ctx.emit("MC_Sticky", "MC_StickySim.cfg", beh, simulate="num=%d" % (15 if q else 150), depth=13, workers=1)
     nbeh = sum(1 for _ in open(beh))
